@@ -132,6 +132,25 @@ def finding_scenarios(base_id):
     return [a, b, c]
 
 
+def oor_inflight_scenarios(base_id):
+    """a user seek landing while a Fetch at an out-of-range position is in flight: the OFFSET_OUT_OF_RANGE reply
+    that arrives afterwards concerns an abandoned offset and must not reset or fail the sought position"""
+    out = []
+    k = base_id
+    log = [data(3), data(3), data(3), data(3)]
+    for policy in ("earliest", "latest", "none"):
+        for committed in (1, 25):
+            for kind, to in (("seek", 6), ("seek", 2), ("seek_beg", 0), ("seek_end", 0)):
+                for mode in ("group_assign", "group"):
+                    out.append({"id": k, "seed": k, "brokers": 1, "partitions": 1, "iso": 0, "policy": policy,
+                                "mode": mode, "logs": {"0": copy.deepcopy(log)}, "log_start": {"0": 2},
+                                "committed": {"0": committed}, "faults": {}, "latency": [0.002, 0.02],
+                                "inject": {"after_kind": "c_fetch_sent_oor", "p": 0, "kind": kind, "to": to},
+                                "consume": 2, "drain": 20.0})
+                    k += 1
+    return out
+
+
 def with_injections(base, n_events, kinds, next_id):
     out = []
     for p_str, n in n_events.items():
@@ -577,6 +596,7 @@ def run(ck: Check):
         grid = [sc for i, sc in enumerate(grid) if i % 3 == ck.seed % 3 or sc["committed"] == {"0": 25}]
     bases += grid
     bases += finding_scenarios(150000)
+    bases += oor_inflight_scenarios(160000)
     bases += [gen_base(rng, i) for i in range(ck.n(100, 700))]
     t0 = _t.time()
     results = c03.run_scenarios(bases, timeout=ck.n(600, 2400), script="c13_sim.py")
